@@ -97,10 +97,18 @@ JudgeRlpEnc(e) == e.k = "ok" /\ e.bytes = RlpCanon(e.x)
 
 (* ok(y): the item at the front of src is the canonical encoding of y.      *)
 (* Octets behind the item are outside the Rlp view handed to the crate's    *)
-(* Decodable impl (documented behaviour of rlp::Rlp), so they are tolerated *)
-(* in both directions; an exact canonical encoding must be accepted.        *)
+(* Decodable impl (rlp::Rlp is documented as a view onto an rlp slice and   *)
+(* rlp::decode as a shortcut for trusted input; no Decodable impl of the    *)
+(* rlp crate looks behind its item), so they are tolerated in both          *)
+(* directions.  Set RlpTrailingTolerated to FALSE for the literal reading   *)
+(* "ok(y) => src = RlpCanon(y)".  An exact canonical encoding of a fitting  *)
+(* value must always be accepted.                                            *)
+RlpTrailingTolerated == TRUE
+
 JudgeRlpDec(e) ==
-  CASE e.k = "ok"  -> Fits(e.y, e.bits) /\ IsPrefix(RlpCanon(e.y), e.src)
+  CASE e.k = "ok"  -> /\ Fits(e.y, e.bits)
+                      /\ IF RlpTrailingTolerated THEN IsPrefix(RlpCanon(e.y), e.src)
+                                                  ELSE RlpCanon(e.y) = e.src
     [] e.k = "err" -> ~RlpValid(e.src, e.bits)
     [] OTHER -> FALSE
 
